@@ -7,9 +7,9 @@ HOOKS = {
     "add_only": True,
 }
 ENGINES = [
-    {"name": "kani", "path": "cargo kani (0.68.0, CBMC 6.11.0, CaDiCaL)", "serves_properties": ["C02", "C04", "C05", "C08", "C09", "C10", "C11", "C12", "C13", "C18"],
+    {"name": "kani", "path": "cargo kani (0.68.0, CBMC 6.11.0, CaDiCaL)", "serves_properties": ["C02", "C03", "C04", "C05", "C07", "C08", "C09", "C10", "C11", "C12", "C13", "C16", "C18"],
      "kind_free_text": "contract harnesses (assume pre / call real function text / assert post), loop-free over full symbolic domain"},
-    {"name": "verus", "path": "verus 0.2026.09.13 (Z3)", "serves_properties": ["C04", "C05", "C08"],
+    {"name": "verus", "path": "verus 0.2026.09.13 (Z3)", "serves_properties": ["C02", "C03", "C04", "C05", "C07", "C08", "C16"],
      "kind_free_text": "lemma layer: unbounded induction over sequences/maps on the kernels the Kani contracts are stated in"},
 ]
 NOTES = "See DESIGN.md. exit 0 = all obligations discharged; exit 1 = VIOLATION (failed obligation, replayed natively where Kani gives a counterexample); exit 2 = undecided (lost anchor, unsupported construct, model limit, timeout) and never a VIOLATION line."
@@ -81,6 +81,32 @@ CLAIMED = {
         "an inductive step, hence every add/remove history inside that size.",
         "DESIGN.md section 4, C13",
         "Locks are exclusive cells; crate::hash injective on registered URIs; HTTP glue in net/server.rs read, not verified.", engine="kani"),
+    "C03": _c(
+        _CB + " (bounded for the code, proof for the algebra): Kani/CBMC contract on the verbatim OrSWotSet::merge (callee NodeVersions::merge linked by contract through #[kani::stub] and "
+        "checked separately) == the per-key merge kernel for replicas with <= 1 (quick) / <= 2 (thorough) keys per side and arbitrary cut-offs; Verus: that kernel under the window hypothesis is the "
+        "join of a semilattice (max under an injective rank), lifted pointwise and to arbitrary merge sequences",
+        "Bounded contract checking of merge against its per-key kernel, plus an unbounded Verus proof that the kernel (no cut-off flag set) is idempotent, commutative, associative and absorbing, "
+        "that folding any sequence of replica states depends only on the set folded in, and that replicas that merged each other agree on every lookup.",
+        "DESIGN.md section 9.8 (C03)",
+        "Decided under the hypothesis 'all timestamps within one forgiveness period' (=> no cut-off flag; lemma). The gap-free-prefix alternative needs ghost history: not decided. Version vectors: "
+        "pointwise maximum (os_versions_merge, bounded)."),
+    "C07": _c(
+        _CB + " (bounded for the loops, proof for the replay step): Kani/CBMC contract on KeyspaceGroup::load_states_from_storage sliced from group.rs (callee load_states by contract stub, its "
+        "body checked separately) over a ghost row store; ORSWOT insert/delete contracts on the real orswot.rs; Verus induction over any number of rows",
+        "Bounded contract checking: for <= 2 keyspaces x <= 2 rows (ids, stamps, tombstone flags symbolic; stamps may coincide) every stored row is replayed exactly once, in timestamp order, "
+        "through source 0 into the state handed to that keyspace's actor, nothing else is, and a failed read hands over nothing. Proved (unbounded): each replayed operation acts as the kernel on "
+        "a real set, and replaying any number of rows with distinct ids leaves exactly the rows.",
+        "DESIGN.md section 9.8 (C07)",
+        "Keyspace names are opaque identifiers (String/Cow<str> stand-ins); Vec -> fixed-capacity vector with a stable insertion sort; 'acknowledged => in storage' is C02; convergence with peers (C01) not decided."),
+    "C16": _c(
+        _CB + " (bounded for the delta function, proof for the fold): Kani/CBMC contract on watch_membership_changes sliced from datacake-node/src/lib.rs for a transition between two symbolic "
+        "snapshots, plus a Verus induction that applying every delta yields the last snapshot",
+        "Bounded contract checking: from an ARBITRARY previous snapshot over the local node and one other node x 2 addresses x 2 data centres (all symbolic), joined/left are exact (left as members of the previous snapshot, with the "
+        "address they had), departed addresses are disconnected, the selector gets exactly the current layout, and a consumer applying the events holds exactly the other live nodes. Proved "
+        "(unbounded): the fold of all deltas equals the last snapshot.",
+        "DESIGN.md section 9.8 (C16)",
+        "KNOWN LIMIT (D6): deltas travel on a latest-value watch channel; a subscriber that attaches late or reads slowly sees a subsequence of deltas -- that part of the property ('no matter how "
+        "slowly it reads', 'joined before the subscription') is NOT established by these obligations and is recorded as a known finding. Names and addresses are opaque identifiers."),
     "C18": _c(
         _CB + ": rely/guarantee reduction -- one sequential Kani contract on get_or_create_keyspace/add_state sliced from group.rs with an arbitrary (havoc) group map and environment steps at "
         "both former await points",
@@ -91,16 +117,8 @@ CLAIMED = {
 }
 
 NOT_APPLICABLE = {
-    "C03": "merge could not be brought within the verifier's reach: the bounded Kani contract for OrSWotSet::merge with ONE key per side (harness os_merge_kernel, kept in the tree) did not "
-           "finish in 40 min / 20 GB, and Verus rejects the entry-API/closure idioms of orswot.rs; without a code-level obligation the algebraic lemmas over the merge kernel would prove a model",
-    "C07": "KeyspaceGroup::load_states_from_storage could not be brought within the verifier's reach: with vcoll stand-ins, with the callee load_states replaced by a contract stub, and with "
-           "the real std collections under concrete counts, the bounded Kani contract (1 keyspace x 2 rows) exhausts 24-40 GB or 20 min; load_states alone (gr_load_states) and the "
-           "unbounded Verus replay lemma (lemmas/restart.rs) are discharged but do not decide the property without the caller, so it is not claimed",
     "C15": "DCAwareSelector::select_nodes / select_n_nodes (iterator adapters over &mut map entries, rand::choose_multiple, rotating cursors) were not brought under contract: functions of "
            "comparable shape (watch_membership_changes, load_states_from_storage) already exceed CBMC's memory in this sandbox; defect D7 found by reading is described in DESIGN.md, not fixed",
-    "C16": "watch_membership_changes could not be brought within the verifier's reach: the bounded Kani contract for ONE transition over one other node exhausts 24 GB with the vcoll "
-           "stand-ins and times out (20 min) with the real std collections under concrete scenarios; the unbounded Verus fold lemma (lemmas/membership.rs) is discharged and defect D5 was "
-           "demonstrated natively and repaired (fix commit 4f8132e), but the property is not claimed",
     "C01": "whole-cluster convergence over all histories, delivery schedules and repair orders: a multi-process history property with no function boundary to carry a postcondition; its single-node ingredients are decided under C02/C04/C05/C07/C08",
     "C06": "spans issuer, transport and N remote nodes (eventual, cross-process); contracts decide only its local ingredients (selection count under C15, write-before-reply under C02)",
     "C14": "schedule/fault quantifier over hyper/h2/tokio/turmoil connection glue; Kani has no concurrency support and no function in /repo owns the behaviour",
